@@ -620,6 +620,37 @@ def check(run):
                     run.evaluations += 1
                     run.count("fragment_outer_scope_family")
                     groups.setdefault(describe_full(e, False, False)[0], {}).setdefault(accepted(e, dom), []).append(e)
+    # deep nesting: chains of alternating all_of / any_of, 4 to 6 levels deep (every level but the innermost is itemised), with a
+    # trailing operand attached to level j, or to level j + 2 (the same connective, two levels further in): the indentation of the
+    # nested lists is all that tells them apart
+    pool = [(op, k) for op in ("equal_to", "greater_than", "less_than", "not_equal_to") for k in (-1, 0, 1, 2, 3, 10)] + \
+        [("is_bool", None), ("is_none",), ("is_str", None), ("not_", ("equal_to", 0)), ("has_length", ("equal_to", 2)), ("starts_with", "a")]
+
+    def chain(rels, leaves, j, tail):
+        def level(k):
+            if k == len(rels) - 1:
+                ops = [leaves[k], leaves[k + 1]]
+            else:
+                ops = [leaves[k], level(k + 1)]
+            return (rels[k], ops + ([tail] if k == j else []))
+        return level(0)
+    for i in range(200 if quick else 5000):
+        depth = run.rng.choice([4, 5, 5, 6])
+        r0 = run.rng.choice(["all_of", "any_of"])
+        rels = [r0 if k % 2 == 0 else DUAL[r0] for k in range(depth)]
+        leaves = [run.rng.choice(pool) for _ in range(depth + 1)]
+        tail = run.rng.choice(pool)
+        j = run.rng.randint(0, depth - 3)
+        pair = [chain(rels, leaves, j, tail), chain(rels, leaves, j + 2, tail)]
+        tables = set()
+        for e in pair:
+            run.evaluations += 1
+            run.count("fragment_deep_nesting_family")
+            acc = accepted(e, dom)
+            tables.add(acc)
+            groups.setdefault(describe_full(e, False, False)[0], {}).setdefault(acc, []).append(e)
+        if len(tables) == 2:
+            run.count("deep_nesting_pairs_with_different_accepted_sets")
     for i in range(n_frag):
         if i % 8 == 7:
             e = gen_negated_composite(run.rng)
